@@ -275,6 +275,10 @@ class Check:
                     if key not in [x[0] for x in self.known]:
                         self.known.append((key, k.get('what', '')))
                     return False
+        self.tagcount = getattr(self, 'tagcount', {})
+        self.tagcount[tag] = self.tagcount.get(tag, 0) + 1
+        if self.tagcount[tag] > 3:      # at most three replays per kind of violation
+            return True
         path = self.replay_path(tag)
         detail = dict(detail); detail['property'] = self.pid; detail['seed'] = self.seed; detail['tag'] = tag
         json.dump(detail, open(path, 'w'), indent=1, default=lambda o: o.hex() if isinstance(o, (bytes, bytearray)) else str(o))
@@ -303,3 +307,9 @@ class Check:
             print(f'VIOLATION property={self.pid} replay={path}' + ('' if has_input else ' no-failing-input-found'))
         sys.stdout.flush()
         return 1 if self.violations else 0
+
+
+def pmap(fn, items, workers=14):
+    from concurrent.futures import ThreadPoolExecutor
+    with ThreadPoolExecutor(max_workers=workers) as ex:
+        return list(ex.map(fn, items))
